@@ -13,6 +13,7 @@ from ..dsl import (
     Variable,
     Zero,
     _variable_sort_key,
+    _variable_total_key,
     ensure_ordering,
 )
 
@@ -68,8 +69,9 @@ class Canonicalizer:
     def _canonicalize_variable(self, variable: Variable) -> Variable:
         return variable
 
-    def _sorted_key(self, variable: Variable) -> int:
-        return self.ordering_level[variable.name]
+    def _sorted_key(self, variable: Variable) -> tuple[int, tuple[str, int, bool, tuple[tuple[str, bool], ...]]]:
+        # variables that share a name (e.g., counterfactuals in different worlds) get a deterministic order
+        return self.ordering_level[variable.name], _variable_total_key(variable)
 
     def canonicalize(self, expression: Expression) -> Expression:
         """Canonicalize an expression.
